@@ -1,6 +1,8 @@
 (** Basic lemmas about the containers of Mvs/Model.v (nodes, the selection map, sorting). *)
 From Dawn Require Import Mvs.VersionProofs Mvs.Spec.
 
+Ltac splits := repeat match goal with |- _ /\ _ => split end.
+
 Lemma node_eqb_spec a b : reflect (a = b) (node_eqb a b).
 Proof.
   destruct a as [p v], b as [q w]. unfold node_eqb; simpl.
